@@ -1,7 +1,9 @@
 // ---------------------------------------------------------------------------------------------
 // C12 — threshold signcryption: decryption shares verify against the participant's own key share
 // and the ciphertext they were made for, under EVERY ciphertext scheme.
-// (Recombination of t shares is vsss-rs: assumed, L-VSSS; see DESIGN.md.)
+// Recombination: the wrappers forward all shares to the vsss-rs combiner; recombination in the
+// exponent is linear (proved, lib_shares.rs), so decryption shares of scalar shares that recombine
+// to the key recombine to sk*U — the point the whole key decrypts with.
 // ---------------------------------------------------------------------------------------------
 pub proof fn lemma_vs_ok_iff(share: Pk, pk: Pk, u: Pk, v: Seq<u8>, w: Sig, d: Seq<u8>)
     ensures vs_ok(share, pk, u, v, w, d) <==> (share.dl() != 0 && pk.dl() != 0 && w.dl() != 0
@@ -87,4 +89,42 @@ pub fn c12_share_bound_to_key_share_and_ciphertext(ds: &SignDecryptionShare, pks
         }
     }
     assert(!(v1 is Ok && v2 is Ok));
+}
+
+/// decryption shares of scalar shares that recombine to the key decrypt EXACTLY as the whole key
+/// does — directly and through a combined decryption key (with C11: to the original message)
+pub fn c12_shares_decrypt_like_the_whole_key(ct: &SignCryptCiphertext, sk: &SecretKey, shares: &[SignDecryptionShare], Ghost(f): Ghost<Seq<SkShare>>)
+    requires
+        f.len() == shares@.len(),
+        // shares[i] is what create_decryption_share returns for the scalar share f[i]
+        forall|i: int| 0 <= i < f.len() ==> share_scalar((#[trigger] f[i]).val()) is Some && shares@[i].0.id() == f[i].id()
+            && shares@[i].0.val() == pk_enc(pk_mul(ct.u, share_scalar(f[i].val())->Some_0)),
+        combined(f) == Some(sk.0),               // e.g. any t or more distinct shares of a split (L-LAGRANGE)
+        ct_valid(*ct),
+{
+    proof {
+        assert(pk_shares_of(f, sdshares_raw(shares@), ct.u));
+        lemma_combine_linear_pk(f, sdshares_raw(shares@), ct.u);
+    }
+    let whole = ct.decrypt(sk);
+    let direct = ct.decrypt_with_shares(shares);
+    let key = SignCryptDecryptionKey::from_shares(shares);
+    assert(key is Ok && key->Ok_0.0 == pk_mul(ct.u, sk.0));
+    match key {
+        Ok(k) => {
+            let via_key = k.decrypt(ct);
+            assert(ct_opt_view(direct) == ct_opt_view(whole));
+            assert(ct_opt_view(via_key) == ct_opt_view(whole));
+        }
+        Err(_) => {}
+    }
+}
+
+/// fewer than two shares decrypt to nothing; whatever is returned comes from a valid ciphertext
+pub fn c12_too_few_shares(ct: &SignCryptCiphertext, shares: &[SignDecryptionShare])
+{
+    let r = ct.decrypt_with_shares(shares);
+    let k = SignCryptDecryptionKey::from_shares(shares);
+    assert(shares@.len() < 2 ==> !r.is_some_spec() && k is Err);
+    assert(r.is_some_spec() ==> ct_valid(*ct));
 }
